@@ -565,7 +565,7 @@ class Ctx:
         out = os.path.join(self.tmp, "n%s" % hashlib.md5(repr(key).encode()).hexdigest()[:12])
         if os.path.exists(out):
             return out
-        cmd = ["gcc", "-g", "-O0", "-fsanitize=address,undefined", "-fno-sanitize-recover=undefined",
+        cmd = ["gcc", "-g", "-O0", "-ftrivial-auto-var-init=pattern", "-fsanitize=address,undefined", "-fno-sanitize-recover=undefined",
                "-fno-omit-frame-pointer", "-w", "-o", out, h] + tus + env + \
               [os.path.join(VERIF, "vh", "vh_native.c")] + \
               self._cflags(self.qdefs(q) + list(q.cdefs)) + ["-lpthread"]
